@@ -7,15 +7,17 @@ CONSTANTS
   RecheckAtApply = TRUE
   KeepTimers = FALSE
   CountAllWit = FALSE
+  RetryBlind = FALSE
   MaxOps = 9
   MaxPend = 0
   MaxWaits = 2
+  MaxParks = 0
   EpochSels = {"cur", "old", "next"}
   PairSels = {"cur", "sc", "old", "next"}
   WaitModes = {"none", "good", "stale", "wrong"}
   ReqServers = {"a", "b"}
   EffectiveOnly = FALSE
-INVARIANTS TypeOK X01_TimersOnlyAtCoordinator TimersComplete StatusLive WitnessesAreGood
+INVARIANTS TypeOK X01_TimersOnlyAtCoordinator X01_NoCrash TimersComplete StatusLive WitnessesAreGood
 PROPERTIES StepsOK
 VIEW MCView
 CHECK_DEADLOCK FALSE
